@@ -19,40 +19,101 @@ ASSUME = [
     "fields are finite; intensities are coarse dyadic rationals so that no cell sits on a rounding knife-edge (as the property states)",
     "Otsu: the float argmax may resolve exact ties differently from exact arithmetic; the implementation's threshold is accepted when it is a bin centre whose exact between-class variance is within 1e-9 of the maximum",
 ]
-RULE = ("fields: rendered emulsions + dyadic noise on Cartesian grids d=1..3 (3..10 cells per axis, periodic or not), values multiples of 2^-10; "
-        "rules extrema/auto/mean/otsu/numeric, minimal radii from the radii present; affine maps a=2^k, b dyadic; "
+RULE = ("fields: rendered emulsions + dyadic noise on Cartesian grids d=1..3 (3..10 cells per axis, every periodicity mask; unit box at the "
+        "origin, shifted, entirely negative, anisotropic spacing), polar / spherical grids (inner radius 0 or > 0), cylinders (incl. narrow, "
+        "shifted, dz != dr); values multiples of 2^-10, every third field shifted so that 0 is an image value inside the range; image data "
+        "float64 / float32 / int64 (16 grey levels); rules extrema/auto/mean/otsu + three numeric thresholds per field (an image value or a "
+        "dyadic number; exactly zero as int 0 / 0.0 / -0.0 / np.float64 / np.float32 / 0-d array; the image minimum, maximum, a value between "
+        "two adjacent image values, an image value as numpy scalar); minimal radii: a radius present, its float neighbours, 0, 0.5, -1, "
+        "-inf, +inf; affine maps a=2^k, b dyadic or b = -a*threshold (mapped threshold exactly 0); "
         "non-trivial = mask neither empty nor full; distinct by (field, rule, minimal radius)")
 
+# inputs that make the UNCHANGED tree behave questionably; run and counted in the evidence, not judged (the lead decides)
+SUSPECTED = [
+    "narrow-integer-extrema: for images of a narrow integer dtype (uint8, int8, ...) the 'extrema' / 'auto' threshold "
+    "float(data.min() + data.max()) / 2 adds the extreme values in the image dtype, which wraps around (uint8 image with values 10 and 250: "
+    "threshold 2.0 instead of 130.0, RuntimeWarning 'overflow encountered in scalar add'), so the droplets are not those of the binary "
+    "image exceeding the midpoint of the extreme values",
+]
 
-def make_field(rng: random.Random, kind=None):
-    from pde import CartesianGrid, ScalarField, PolarSymGrid, SphericalSymGrid, CylindricalSymGrid
-    from droplets import DiffuseDroplet, Emulsion
+
+def make_grid(gs: dict):
+    from pde import CartesianGrid, PolarSymGrid, SphericalSymGrid, CylindricalSymGrid
+    fam = gs["family"]
+    if fam == "cart":
+        return CartesianGrid([tuple(b) for b in gs["bounds"]], list(gs["shape"]), periodic=list(gs["periodic"]))
+    if fam == "polar":
+        return PolarSymGrid(tuple(gs["radius"]), gs["shape"])
+    if fam == "spherical":
+        return SphericalSymGrid(tuple(gs["radius"]), gs["shape"])
+    return CylindricalSymGrid(gs["radius"], tuple(gs["bounds_z"]), list(gs["shape"]), periodic_z=gs["periodic_z"])
+
+
+def gen_grid_spec(rng: random.Random) -> dict:
+    """JSON-able grid recipe; geometry: unit cells at the origin, shifted, entirely negative, anisotropic spacing"""
     fam = rng.choice(["cart", "cart", "cart", "polar", "spherical", "cyl"])
+    geo = rng.choice(["origin", "origin", "shifted", "negative", "anisotropic"])
     if fam == "cart":
         dim = rng.choice([1, 2, 2, 3])
         shape = [rng.randrange(3, 11 if dim < 3 else 7) for _ in range(dim)]
         per = [rng.random() < 0.5 for _ in range(dim)]
-        grid = CartesianGrid([(0.0, float(n)) for n in shape], shape, periodic=per)
-    elif fam == "polar":
+        hs = [rng.choice([0.5, 1.0, 2.0]) if geo == "anisotropic" else 1.0 for _ in range(dim)]
+        if geo in ("origin", "anisotropic"):
+            los = [0.0] * dim
+        elif geo == "shifted":
+            los = [rng.choice([-2.5, 3.0, 100.0]) for _ in range(dim)]
+        else:
+            los = [-(n * h) - rng.choice([0.0, 5.0]) for n, h in zip(shape, hs)]
+        return {"family": "cart", "geometry": geo, "bounds": [[lo, lo + n * h] for lo, n, h in zip(los, shape, hs)],
+                "shape": shape, "periodic": per}
+    if fam in ("polar", "spherical"):
         n = rng.randrange(3, 12)
-        grid = PolarSymGrid(float(n), n)
-    elif fam == "spherical":
-        n = rng.randrange(3, 12)
-        grid = SphericalSymGrid(float(n), n)
-    else:
-        nr, nz = rng.randrange(2, 6), rng.randrange(3, 9)
-        grid = CylindricalSymGrid(float(nr), (0.0, float(nz)), (nr, nz), periodic_z=rng.random() < 0.5)
+        r0 = 0.0 if geo in ("origin", "negative") else rng.choice([0.5, 1.0])
+        h = rng.choice([0.5, 2.0]) if geo == "anisotropic" else 1.0
+        return {"family": fam, "geometry": "inner radius > 0" if r0 > 0 else ("origin" if h == 1.0 else "spacing != 1"),
+                "radius": [r0, r0 + n * h], "shape": n}
+    nr, nz = rng.randrange(2, 6), rng.randrange(3, 9)
+    if geo == "shifted":   # narrow and finely sliced
+        nr, nz = rng.choice([1, 2]), rng.randrange(6, 13)
+    hz = rng.choice([0.5, 2.0]) if geo == "anisotropic" else 1.0
+    z0 = {"origin": 0.0, "anisotropic": 0.0, "shifted": 3.0, "negative": -float(nz) - 2.0}[geo]
+    return {"family": "cyl", "geometry": {"shifted": "narrow, shifted", "anisotropic": "dz != dr"}.get(geo, geo), "radius": float(nr),
+            "bounds_z": [z0, z0 + nz * hz], "shape": [nr, nz], "periodic_z": rng.random() < 0.5}
+
+
+IMAGES = ["float64", "float64", "float64", "float32", "int64"]
+
+
+def as_image(grid, data, image):
+    """coarse dyadic float64 data -> the ScalarField of the given image type (int64: 16 grey levels per unit)"""
+    from pde import ScalarField
+    if image == "float64":
+        return ScalarField(grid, data)
+    if image == "float32":    # multiples of 2^-10 below 2^13 are exact in float32
+        return ScalarField(grid, data.astype(np.float32), dtype=np.float32)
+    return ScalarField(grid, np.round(data * 16).astype(np.int64), dtype=np.int64)
+
+
+def make_field(rng: random.Random, kind=None):
+    from droplets import DiffuseDroplet, Emulsion
+    gs = gen_grid_spec(rng)
+    grid = make_grid(gs)
+    fam = gs["family"]
     shape = list(grid.shape)
     kind = kind or rng.choice(["drops", "drops", "noise", "mixed", "const"])
     data = np.zeros(shape)
     if kind in ("drops", "mixed"):
         if fam == "cart":
-            em = Emulsion([DiffuseDroplet([rng.uniform(0, n) for n in shape], rng.uniform(0.6, 2.5), rng.choice([0.0, 0.5, 1.0]))
+            hmin = min((b[1] - b[0]) / n for b, n in zip(gs["bounds"], shape))
+            em = Emulsion([DiffuseDroplet([rng.uniform(b[0], b[1]) for b in gs["bounds"]], rng.uniform(0.6, 2.5) * hmin,
+                                          rng.choice([0.0, 0.5, 1.0]) * hmin)
                            for _ in range(rng.randrange(1, 4))])
         elif fam == "cyl":
-            em = Emulsion([DiffuseDroplet([0, 0, rng.uniform(0, shape[1])], rng.uniform(0.6, 2.5), rng.choice([0.0, 0.5, 1.0]))])
+            z0, z1 = gs["bounds_z"]
+            em = Emulsion([DiffuseDroplet([0, 0, rng.uniform(z0, z1)], rng.uniform(0.6, 2.5), rng.choice([0.0, 0.5, 1.0]))])
         else:
-            em = Emulsion([DiffuseDroplet([0.0] * grid.dim, rng.uniform(0.6, shape[0] - 0.5), rng.choice([0.0, 0.5, 1.0]))])
+            r0, r1 = gs["radius"]
+            em = Emulsion([DiffuseDroplet([0.0] * grid.dim, rng.uniform(r0 + 0.6, r1 - 0.5), rng.choice([0.0, 0.5, 1.0]))])
         data = em.get_phasefield(grid).data
     if kind in ("noise", "mixed"):
         nrng = np.random.default_rng(rng.randrange(1 << 30))
@@ -60,7 +121,16 @@ def make_field(rng: random.Random, kind=None):
     if kind == "const":
         data = data + rng.randrange(-4, 5) / 4.0
     data = np.round(data * 1024) / 1024.0  # coarse dyadic
-    return ScalarField(grid, data), kind + ":" + fam
+    image = rng.choice(IMAGES)
+    if image == "int64":
+        data = np.round(data * 16) / 16.0
+    shift = "none"
+    if rng.random() < 0.34:   # 0 becomes an image value inside the range (the extrema midpoint is then not 0 in general)
+        vals = np.unique(data)
+        data = data - float(vals[rng.randrange(len(vals))])
+        shift = "an image value moved to 0"
+    gs["image"], gs["zero_shift"] = image, shift
+    return as_image(grid, data, image), kind + ":" + fam, gs
 
 
 class MaskRecorder:
@@ -81,12 +151,14 @@ class MaskRecorder:
 
 def ref_threshold(data, rule):
     """The documented threshold, computed independently of locate_droplets."""
+    if not isinstance(rule, str):
+        return float(rule)
     if rule in ("extrema", "auto"):
         return (float(data.min()) + float(data.max())) / 2
     if rule == "mean":
-        return float(data.mean())
+        return float(np.mean(data, dtype=np.float64))
     if rule == "otsu":
-        flat = data.ravel()
+        flat = np.asarray(data, dtype=np.float64).ravel()
         mn, mx = float(flat.min()), float(flat.max())
         if mn == mx:
             mn, mx = mn - 0.5, mx + 0.5
@@ -118,7 +190,7 @@ def oracle_one(field, rule, mn_r):
     from droplets.image_analysis import locate_droplets, locate_droplets_in_mask
     em = locate_droplets(field, threshold=rule, minimal_radius=mn_r)
     tau = ref_threshold(field.data, rule)
-    if rule == "otsu":
+    if isinstance(rule, str) and rule == "otsu":
         from droplets.image_analysis import threshold_otsu
         t_impl = threshold_otsu(field.data)
         # accept ties: any threshold giving the same class split is equivalent; compare masks below with t_impl
@@ -151,6 +223,73 @@ def oracle_affine(field, rule, mn_r, a, b):
 
 
 RULES = ["extrema", "auto", "mean", "otsu"]
+ZEROS = {"int 0": lambda: 0, "float 0.0": lambda: 0.0, "float -0.0": lambda: -0.0, "np.float64(0)": lambda: np.float64(0),
+         "np.float32(0)": lambda: np.float32(0), "0-d array 0.0": lambda: np.array(0.0)}
+
+
+def numeric_rule(tag: str, value: float):
+    """(type tag, exact value) -> the object handed to locate_droplets as threshold"""
+    if tag in ZEROS:
+        return ZEROS[tag]()
+    if tag == "np.float64":
+        return np.float64(value)
+    if tag == "int":
+        return int(value)
+    return float(value)
+
+
+def numeric_rules(rng, flat, image):
+    """three numeric thresholds (tag, value, kind) for one field"""
+    vals = sorted(set(flat))
+    out = []
+    if rng.random() < 0.5:
+        out.append(("float", rng.choice(flat), "an image value"))
+    else:
+        out.append(("float", rng.randrange(-8, 24) / 16.0, "dyadic number"))
+    out.append((rng.choice(sorted(ZEROS)), 0.0, "exactly zero"))
+    k = rng.randrange(5)
+    if k == 0:
+        out.append(("float", vals[0], "image minimum"))
+    elif k == 1:
+        out.append(("float", vals[-1], "image maximum"))
+    elif k == 2 and len(vals) > 1:
+        i = rng.randrange(len(vals) - 1)
+        out.append(("float", (vals[i] + vals[i + 1]) / 2, "between two adjacent image values"))
+    elif k == 3 and image == "int64":
+        out.append(("int", rng.choice(flat), "an image value (Python int)"))
+    else:
+        out.append(("np.float64", rng.choice(flat), "an image value (numpy scalar)"))
+    return out
+
+
+def minimal_radius_choice(rng, radii):
+    """-> (value, kind)"""
+    opts = [(0.0, "0"), (0.5, "0.5"), (-1.0, "negative"), (-math.inf, "-inf"), (math.inf, "+inf")]
+    if radii:
+        r = rng.choice(radii)
+        opts += [(r, "a radius present")] * 4 + [(float(np.nextafter(r, -np.inf)), "just below a radius present"),
+                                                  (float(np.nextafter(r, np.inf)), "just above a radius present")]
+    return rng.choice(opts)
+
+
+def suspected_probe(ctx):
+    """SUSPECTED[0]: run and counted, not judged"""
+    from pde import CartesianGrid, ScalarField
+    from droplets.image_analysis import locate_droplets
+    import warnings
+    grid = CartesianGrid([(0, 6)], [6])
+    for dt, lo, hi in ((np.uint8, 10, 250), (np.int8, 100, 120), (np.uint8, 10, 100), (np.int16, 100, 30000)):
+        data = np.array([lo, hi, hi, lo, lo, lo], dtype=dt)
+        try:
+            with warnings.catch_warnings():
+                warnings.simplefilter("ignore")
+                got = sorted(round(float(d.radius), 12) for d in locate_droplets(ScalarField(grid, data, dtype=dt), threshold="extrema"))
+            want = sorted(round(float(d.radius), 12) for d in locate_droplets(ScalarField(grid, data.astype(float)), threshold="extrema"))
+            res = "as for the same values in float64" if got == want else "differs from the same values in float64"
+        except Exception as e:  # noqa
+            res = "raises " + type(e).__name__
+        ctx.count("suspected: extrema rule on narrow integer images", f"{np.dtype(dt).name} [{lo}, {hi}]: {res}")
+    ctx.notes.append("SUSPECTED (reported, not judged): " + " | ".join(SUSPECTED))
 
 
 def check(ctx: vlib.Ctx) -> int:
@@ -163,51 +302,81 @@ def check(ctx: vlib.Ctx) -> int:
     mask_cases, otsu_cases, rs_cases, meta, fails = [], [], [], [], []
     rule_ctor = {"extrema": "ThrExtrema", "auto": "ThrAuto", "mean": "ThrMean", "otsu": "ThrOtsu"}
     for i in range(nfields):
-        field, kind = make_field(rng)
+        field, kind, gs = make_field(rng)
         flat = [float(v) for v in field.data.ravel()]
-        rules = list(RULES) + [rng.choice(flat) if rng.random() < 0.5 else rng.randrange(-8, 24) / 16.0]
-        for rule in rules:
-            with MaskRecorder() as rec:
-                em_all = locate_droplets(field, threshold=rule, minimal_radius=-np.inf)
-            mask, cands = rec.log[0]
-            radii = [r for _, r in cands]
-            mn_r = rng.choice(radii + [0.0, 0.5]) if radii else 0.0
-            em = locate_droplets(field, threshold=rule, minimal_radius=mn_r)
+        rules = [(r, None, None, "rule") for r in RULES]
+        rules += [(numeric_rule(tag, v), tag, v, what) for tag, v, what in numeric_rules(rng, flat, gs["image"])]
+        for rule, tag, value, what in rules:
+            named = isinstance(rule, str)
+            rname = rule if named else f"{tag}:{value!r}"
+            base_input = {"data": flat, "shape": list(field.grid.shape), "grid_spec": gs, "rule": rule if named else repr(float(value)),
+                          "rule_type": "rule" if named else tag}
+            try:
+                with MaskRecorder() as rec:
+                    em_all = locate_droplets(field, threshold=rule, minimal_radius=-np.inf)
+                mask, cands = rec.log[0]
+                radii = [r for _, r in cands]
+                mn_r, mn_kind = minimal_radius_choice(rng, radii)
+                em = locate_droplets(field, threshold=rule, minimal_radius=mn_r)
+            except Exception as e:  # noqa -- a result of the wrong kind is a failure of the property on this input
+                ctx.case([flat, rname, "raised", list(field.grid.shape)], nontrivial=True)
+                ctx.count("outcome", "raises " + type(e).__name__)
+                fails.append({"what": f"locate_droplets raised {type(e).__name__}: {str(e)[:160]}", "input": {**base_input, "minimal_radius": 0.0}})
+                continue
+            base_input["minimal_radius"] = mn_r if math.isfinite(mn_r) else repr(mn_r)
             nontriv = bool(mask.any() and not mask.all())
-            ctx.case([flat, str(rule), mn_r, list(field.grid.shape)], nontrivial=nontriv)
-            ctx.count("rule", rule if isinstance(rule, str) else "numeric")
+            ctx.case([flat, rname, mn_r if math.isfinite(mn_r) else repr(mn_r), list(field.grid.shape)], nontrivial=nontriv)
+            ctx.count("rule", rule if named else "numeric")
+            ctx.count("numeric_threshold", "-" if named else what)
+            if not named and what == "exactly zero":
+                ctx.count("zero_threshold_type", tag)
             ctx.count("field_kind", kind)
+            ctx.count("grid_geometry", gs["family"] + ": " + gs["geometry"])
+            ctx.count("image", gs["image"])
+            ctx.count("zero_shift", gs["zero_shift"])
+            ctx.count("minimal_radius", mn_kind)
             ctx.count("dim", field.grid.dim)
             ctx.count("mask", "empty" if not mask.any() else ("full" if mask.all() else "mixed"))
+            if not named:
+                lo, hi = min(flat), max(flat)
+                ctx.count("numeric_threshold_position", "below the range" if value < lo else "above the range" if value > hi else
+                          ("on the extrema midpoint" if value == (lo + hi) / 2 else "inside the range, off the extrema midpoint"))
             data_lit = vlib.listlit(flat[1:], vlib.qlit)
             mlit = vlib.listlit([bool(v) for v in mask.ravel()], vlib.blit)
-            if rule == "otsu":
+            if named and rule == "otsu":
                 t_impl = float(threshold_otsu(field.data))
-                otsu_cases.append(f"({vlib.qlit(flat[0])}, {data_lit}, {vlib.qlit(t_impl)}, {mlit})")
+                if math.isfinite(t_impl):
+                    otsu_cases.append(f"({vlib.qlit(flat[0])}, {data_lit}, {vlib.qlit(t_impl)}, {mlit})")
+                else:
+                    fails.append({"what": f"threshold_otsu returned {t_impl!r}", "input": dict(base_input)})
             else:
-                ctor = rule_ctor[rule] if isinstance(rule, str) else f"(ThrNum {vlib.qlit(rule)})"
+                ctor = rule_ctor[rule] if named else f"(ThrNum {vlib.qlit(float(value))})"
                 mask_cases.append(f"({ctor}, {vlib.qlit(flat[0])}, {data_lit}, {mlit})")
-                meta.append((flat, rule, list(field.grid.shape)))
+                meta.append((flat, rname, list(field.grid.shape)))
             # size filter: survivors among the candidates (identified by index through radius order)
             out_r = sorted(round(d.radius, 15) for d in em)
             keep = [k for k, r in enumerate(radii) if r > mn_r]
             if sorted(round(radii[k], 15) for k in keep) != out_r:
-                fails.append({"what": "size filter: survivors are not the candidates above the minimal radius",
-                              "input": {"data": flat, "shape": list(field.grid.shape), "rule": str(rule), "minimal_radius": mn_r}})
-            rs_cases.append("{| rs_mn := %s; rs_rad := %s; rs_out := %s |}" % (
-                vlib.qlit(mn_r), vlib.listlit(radii, vlib.qlit), vlib.listlit(keep, lambda k: f"{k}%nat")))
+                fails.append({"what": "size filter: survivors are not the candidates above the minimal radius", "input": dict(base_input)})
+            if math.isfinite(mn_r) and all(math.isfinite(r) for r in radii):   # +-inf is not a rational: Python oracle only
+                rs_cases.append("{| rs_mn := %s; rs_rad := %s; rs_out := %s |}" % (
+                    vlib.qlit(mn_r), vlib.listlit(radii, vlib.qlit), vlib.listlit(keep, lambda k: f"{k}%nat")))
+            else:
+                ctx.count("size_filter_cases_outside_Q", "Python oracle only")
             f = oracle_one(field, rule, mn_r)
             if f:
-                fails.append({"what": f, "input": {"data": flat, "shape": list(field.grid.shape), "grid": repr(field.grid),
-                                                   "periodic": list(map(bool, field.grid.periodic)), "rule": str(rule), "minimal_radius": mn_r}})
+                fails.append({"what": f, "input": dict(base_input)})
             if i % 3 == 0:
-                a, b = 2.0 ** rng.randrange(-3, 4), rng.randrange(-16, 17) / 4.0
+                a = 2.0 ** rng.randrange(-3, 4)
+                if not named and rng.random() < 0.5:
+                    b, bkind = -a * float(value), "b = -a * threshold (mapped threshold exactly 0)"
+                else:
+                    b, bkind = rng.randrange(-16, 17) / 4.0, "dyadic b"
                 f = oracle_affine(field, rule, mn_r, a, b)
-                ctx.count("affine_checks", "done")
+                ctx.count("affine_checks", bkind)
                 if f:
-                    fails.append({"what": f, "input": {"data": flat, "shape": list(field.grid.shape),
-                                                       "periodic": list(map(bool, field.grid.periodic)), "rule": str(rule),
-                                                       "minimal_radius": mn_r, "a": a, "b": b}})
+                    fails.append({"what": f, "input": {**base_input, "a": a, "b": b}})
+    suspected_probe(ctx)
     ctx.sample({"rule": str(meta[-1][1]), "shape": meta[-1][2], "field": meta[-1][0][:12]})
     header = ("From Coq Require Import QArith List Bool.\nImport ListNotations.\n"
               "From PD Require Import Model.Threshold Model.Pipeline Model.Overlap Model.OverlapCases Gen.Gen_analysis.\n"
@@ -232,24 +401,37 @@ def check(ctx: vlib.Ctx) -> int:
     return vlib.finish(ctx, "", TRUSTED, ASSUME, RULE)
 
 
-def replay(path: str) -> int:
+def _replay_field(inp):
     from pde import CartesianGrid, ScalarField
+    shape = inp["shape"]
+    data = np.array(inp["data"]).reshape(shape)
+    if "grid_spec" in inp:
+        gs = inp["grid_spec"]
+        return as_image(make_grid(gs), data / 16.0 if gs.get("image") == "int64" else data, gs.get("image", "float64"))
+    if "grid" in inp and not inp["grid"].startswith("CartesianGrid"):
+        import pde
+        grid = eval(inp["grid"], {k: getattr(pde, k) for k in ("PolarSymGrid", "SphericalSymGrid", "CylindricalSymGrid")})
+    else:
+        grid = CartesianGrid([(0.0, float(n)) for n in shape], shape, periodic=inp.get("periodic", False))
+    return ScalarField(grid, data)
+
+
+def replay(path: str) -> int:
     obj = json.load(open(path))
     inp = obj.get("input", {})
     print(json.dumps(obj, indent=1)[:1500])
     if "data" in inp:
-        shape = inp["shape"]
-        if "grid" in inp and not inp["grid"].startswith("CartesianGrid"):
-            import pde
-            grid = eval(inp["grid"], {k: getattr(pde, k) for k in ("PolarSymGrid", "SphericalSymGrid", "CylindricalSymGrid")})
-        else:
-            grid = CartesianGrid([(0.0, float(n)) for n in shape], shape, periodic=inp.get("periodic", False))
-        field = ScalarField(grid, np.array(inp["data"]).reshape(shape))
+        field = _replay_field(inp)
         rule = inp["rule"]
-        rule = rule if rule in RULES else float(rule)
-        f = oracle_one(field, rule, inp["minimal_radius"])
-        if not f and "a" in inp:
-            f = oracle_affine(field, rule, inp["minimal_radius"], inp["a"], inp["b"])
+        if inp.get("rule_type", "rule" if rule in RULES else "float") != "rule":
+            rule = numeric_rule(inp.get("rule_type", "float"), float(rule))
+        mn_r = float(inp["minimal_radius"])
+        try:
+            f = oracle_one(field, rule, mn_r)
+            if not f and "a" in inp:
+                f = oracle_affine(field, rule, mn_r, inp["a"], inp["b"])
+        except Exception as e:  # noqa
+            f = f"locate_droplets raised {type(e).__name__}: {e}"
         print("property oracle on the current tree:", f or "holds")
         return 1 if f else 0
     return 0
